@@ -796,6 +796,11 @@ func (sp *Specs) parseFile(pkg string, lines []string) {
 					sp.errf("%s: %v", pkg, err)
 				}
 				sf.Body = e
+				// a defined, non-recursive spec function is expanded where it is used, in the state it is used
+				// in (a define-fun would freeze heap reads such as args[i] to the entry state)
+				if !strings.Contains(sf.BodyTxt, sf.Name+"(") {
+					sf.Macro = true
+				}
 			}
 			sp.SpecFuns[sf.Name] = sf
 			cur = nil
@@ -1043,7 +1048,7 @@ func splitTop(s string) []string {
 	return out
 }
 
-var traceVocab = map[string]bool{"ncalls": true, "called": true, "arg1": true, "arg2": true, "arg3": true, "arg4": true, "arg5": true,
+var traceVocab = map[string]bool{"ncalls": true, "called": true, "arg1": true, "arg2": true, "arg3": true, "arg4": true, "arg5": true, "arg6": true,
 	"result": true, "result2": true, "resultb": true, "resultok": true, "nvarargs": true, "sliceArg": true, "sliceRes": true}
 
 // mentionsTrace: the expression speaks about the ghost call log of the activation it belongs to. Such a
